@@ -554,7 +554,7 @@ def property_fails(N, F, text, nop, nov, noc):
 # --------------------------------------------------------------------------
 # cases
 # --------------------------------------------------------------------------
-def make_cases(rng, quick, tmp):
+def make_cases(rng, quick, tmp, chain=()):
     cases = []
 
     def add(stream, argv, stdin, formula=None, sw='', files=None, nowrite=None, cwd=None, outfile=None, kind=None, seed=None,
@@ -659,6 +659,11 @@ def make_cases(rng, quick, tmp):
             name = os.path.join(tmp, 'nodir%d' % i, 'out.cnf')
             add('malformed-command', switch_tokens(rng, rng.choice(subsets)) + file_tokens(rng, 'o', name), good, nowrite=[name],
                 kind='output file cannot be created')
+    # the shell pipe `cnfgen <argv> | cnfshuffle ...` (theorems in coq/Prop_C09_chain.v): the text is what the real cnfgen wrote
+    # (and what the whole-program model of cnfgen writes: compared in chain_texts), the formula is what an independent reader sees in it
+    for j, (cargv, text, N, F) in enumerate(chain):
+        build('valid', N, F, 'pipe: cnfgen %s |' % ' '.join(cargv), text, 64 + j, 'plain')
+        cases[-1]['chain'] = cargv
     return cases
 
 
@@ -702,6 +707,37 @@ def model_batch(ctx, reqs, workers=10, chunk=40):
     return [x for c in res for x in c]
 
 
+def chain_texts(ctx, rng, quick):
+    """outputs of the real cnfgen on command lines of the pipeline grammar (coq/Pipeline.v), kept when the whole-program model
+    cnfgen_main writes the same bytes (a disagreement there is C17's to report: tallied, not used) and the text is DIMACS"""
+    import c17_pipeline as P17
+    argvs = []
+    for i in range(60 if quick else 600):
+        c = P17.gen_base(rng, small=True) if i % 3 else P17.gen_graph_base(rng, small=True)
+        c['chain'] = P17.gen_chain(rng, maxlen=2)
+        argvs.append(P17.render(rng, c))
+    argvs += [['-q', 'php', '2', '1'], ['-q', 'php', '3', '2', '-T', 'xor', '2'], ['-q', 'and', '0', '0'], ['-q', 'or', '0', '0'],
+              ['-q', 'op', '3', '-T', 'flip'], ['-q', 'tseitin', 'first', 'complete', '4']]
+    reals = P17.run_real(argvs)
+    reps, _ = P17.model_replies(ctx, argvs)
+    out = []
+    for a, r, m in zip(argvs, reals, reps):
+        if m[0] != 'out':
+            ctx.tally('pipe: cnfgen model verdict', str(m[0]))
+            continue
+        if not P17.tool_agrees(m, r):
+            ctx.tally('pipe: cnfgen model verdict', 'out, tool differs (left to C17)')
+            continue
+        text = r['out']
+        f = read_dimacs(text)
+        if f is None or len(text) > 200000:
+            ctx.tally('pipe: cnfgen model verdict', 'out, not DIMACS or too long')
+            continue
+        ctx.tally('pipe: cnfgen model verdict', 'out = tool bytes')
+        out.append((a, text, f[0], f[1]))
+    return out
+
+
 def run_shuffle_main(ctx):
     lib.import_impl()
     import random
@@ -719,7 +755,9 @@ def run_shuffle_main(ctx):
 
 
 def _run(ctx, rng, quick, version, tmp):
-    cases = make_cases(rng, quick, tmp)
+    import random as _random
+    chain = chain_texts(ctx, _random.Random(ctx.seed * 1000003 + 9091), quick)
+    cases = make_cases(rng, quick, tmp, chain)
     # a sample of seeded cases is run twice (two children of the fork server start from different generator states)
     seeded = [cs for cs in cases if cs['stream'] == 'valid' and cs['seed'] and not cs['outfile'] and cs['formula'][0] < WORD]
     again = rng.sample(seeded, min(len(seeded), 25 if quick else 150))
@@ -758,6 +796,8 @@ def _run(ctx, rng, quick, version, tmp):
             ctx.tally('main switches', cs['sw'] or 'none')
             ctx.tally('main seed', 'none' if cs['seed'] is None else 'empty string' if cs['seed'] == '' else 'integer' if cs['seed'].lstrip('-').isdigit() else 'other string')
             ctx.tally('main input', 'file' if cs['infile'] else 'stdin')
+            if cs.get('chain') is not None:
+                ctx.tally('main pipe cnfgen | cnfshuffle', next((t for t in cs['chain'] if not t.startswith('-')), '?'))
             ctx.tally('main output', 'file' if cs['outfile'] else 'stdout')
             ctx.tally('main text style', cs['kind'].split(' / ')[-1])
             ctx.tally('main draws read', '0' if not r['bits'] else '<100' if len(r['bits']) < 100 else '<1000' if len(r['bits']) < 1000 else '>=1000')
